@@ -94,6 +94,20 @@ Example C17_restart_inside_timer_pass :
      EFinal UV_EBUSY 1].
 Proof. exact w_pass_traces. Qed.
 
+(* uv_walk (handle_queue minus the handles flagged UV_HANDLE_INTERNAL) shows exactly the program's
+   handles: every fs_poll handle that is initialised and not yet closed, never a context's
+   interval timer -- in every state.  The walk-and-close-all teardown [OWalk] (uv_close on every
+   visited handle that is not closing, from anywhere: with a stat in flight, from poll callbacks,
+   from a script timer's callback inside the timer pass) is an operation of the scripts all the
+   trace theorems of this file quantify over. *)
+Theorem C17_walk_sees_only_user_handles :
+  forall s,
+  uv_walk s = map QH (filter (fun h => negb (h_closed (geth s h))) (seq 0 (length (hs s)))) /\
+  (forall c, ~ In (QT c) (uv_walk s)) /\
+  walk_targets s = filter (fun h => negb (h_closed (geth s h))) (seq 0 (length (hs s))).
+Proof. exact walk_sees_only_user_handles. Qed.
+Print Assumptions C17_walk_sees_only_user_handles.
+
 (* History (before 834ed95): the same statement was false: start A; stop; start B while A's
    stat is in flight -- A's poll_cb saw an active handle, kept polling A's path and called A's
    callback.  Kept as the regression witness (corpus/C17/fspoll_known.txt replays it). *)
